@@ -35,7 +35,7 @@ pub enum STop
 pub struct Def { pub excl: bool, pub runs: Vec<Vec<SAct>> }
 
 #[derive(Clone, Debug, Default)]
-pub struct Scenario { pub defs: Vec<Def>, pub wrs: Vec<usize>, pub ewrs: Vec<usize>, pub tops: Vec<STop> }
+pub struct Scenario { pub defs: Vec<Def>, pub wrs: Vec<usize>, pub ewrs: Vec<usize>, pub tops: Vec<STop>, pub valid: Vec<(usize, bool)> }
 
 fn num<T: std::str::FromStr>(t: &str) -> Option<T>
 {
@@ -166,6 +166,7 @@ pub fn parse_scenario(text: &str) -> Option<Scenario>
                 }
                 sc.defs.push(d);
             }
+            ["valid", b] => sc.valid.push((sc.tops.len(), *b == "1")),
             ["wr", d] => sc.wrs.push(num(d)?),
             ["ewr", d] => sc.ewrs.push(num(d)?),
             ["top", "acts", n] => { let a = take_acts(num(n)?, &mut lines)?; sc.tops.push(STop::Acts(a)); }
